@@ -105,7 +105,7 @@ func (g *zoneGen) service(owner, label string) {
 	}
 }
 
-var c14Schemes = []string{"https", "http", "HTTPS", "Http", "foo", "dot", "wss"}
+var c14Schemes = []string{"https", "http", "HTTPS", "Http", "foo", "dot", "wss", strings.Repeat("s", 62), strings.Repeat("t", 61)}
 
 // genInput draws a name argument for host; returns the input and a class label.
 func genInput(t *rapid.T, host string) (string, string) {
@@ -206,7 +206,7 @@ func compareOutcome(res ech.ResolveResult, err error, want dnsfx.RefOutcome) str
 func TestC14(t *testing.T) {
 	rec := ev.Get("C14")
 	rec.Rule("random zones served by a loopback DoH server that answers like a recursive resolver (CNAME chain first, packets built with dnsmessage): host with A/AAAA (directly or through CNAME chains), at the RFC 9460 query name either nothing, NXDOMAIN, a service RRset (1..4 records, equal/distinct priorities, targets with/without addresses, ports, ALPN, ECH markers), or an alias chain of 0..8 links (loops, self alias, alias to '.', alias to a name with only addresses) optionally behind a CNAME; forced RCODEs 1..5 and 6..23 and HTTP 4xx on single (name,type) pairs; poison records (HTTPS with attacker ECH, A, AAAA, CNAME) owned by an unrelated name in every answer. Name forms: host, host:port (0/80/443/other), scheme://host[:port][/path] (http/https/other, mixed case), IP literals, localhost, over-long hosts, labels, schemes and constructed names. Oracle: reference resolver over the zone (RFC 9460 2.3/2.4.2/3), poison markers absent, query log (types, RFC-conformant names from the allowed set, count bound). distinct = (zone shape, name form); non-trivial = zone has HTTPS records or a CNAME for the queried name")
-	rec.Mandatory("alias_loop", "alias_chain_gt_limit", "poison", "rcode:1", "rcode:2", "rcode:3", "rcode:4", "rcode:5", "port_non443_other_scheme", "overlong_scheme", "overlong_constructed", "overlong_host", "ip_literal", "service_with_targets", "cname_to_https", "nxdomain_https")
+	rec.Mandatory("longest_valid_host", "alias_loop", "alias_chain_gt_limit", "poison", "rcode:1", "rcode:2", "rcode:3", "rcode:4", "rcode:5", "port_non443_other_scheme", "overlong_scheme", "overlong_constructed", "overlong_host", "ip_literal", "service_with_targets", "cname_to_https", "nxdomain_https")
 	rapid.Check(t, func(t *rapid.T) {
 		var cl []string
 		host := "svc.example"
@@ -216,19 +216,29 @@ func TestC14(t *testing.T) {
 		case 0:
 			host = rapid.SampledFrom([]string{"192.0.2.7", "2001:db8::7", "localhost", "::1"}).Draw(t, "literal")
 			cl = append(cl, "ip_literal")
-		case 1: // over-long host or label
-			if rapid.Bool().Draw(t, "longlabel") {
-				host = strings.Repeat("a", rapid.IntRange(64, 300).Draw(t, "labellen")) + ".example"
-			} else {
+		case 1: // over-long host or label (boundaries included: label of 64, name of 254)
+			switch rapid.IntRange(0, 2).Draw(t, "longkind") {
+			case 0:
+				host = strings.Repeat("a", rapid.SampledFrom([]int{64, 65, 100, 255, 300}).Draw(t, "labellen")) + ".example"
+			case 1:
 				host = strings.Repeat("abcdefgh.", rapid.IntRange(29, 400).Draw(t, "reps")) + "example"
+			default:
+				host = strings.Repeat("abcdefgh.", 27) + "abc.example" // 243 + 11 = 254 characters
 			}
 			cl = append(cl, "overlong_host")
 			expectInvalid = true
+		case 4: // longest valid shapes: a 63-byte label, a 253-character name
+			if rapid.Bool().Draw(t, "maxlabel") {
+				host = strings.Repeat("a", 63) + ".example"
+			} else {
+				host = strings.Repeat("abcdefgh.", 27) + "ab.example" // 243 + 10 = 253 characters
+			}
+			cl = append(cl, "longest_valid_host")
 		}
 		input, form := genInput(t, host)
 		cl = append(cl, form)
 		if kind == 2 { // over-long scheme
-			input = strings.Repeat("s", rapid.IntRange(64, 400).Draw(t, "schemelen")) + "://" + host + ":8443"
+			input = strings.Repeat("s", rapid.SampledFrom([]int{63, 64, 65, 100, 255, 300, 400}).Draw(t, "schemelen")) + "://" + host + ":8443"
 			cl = append(cl, "overlong_scheme")
 			expectInvalid = true
 		}
